@@ -274,6 +274,33 @@ Proof.
     inversion Hnd; assumption.
 Qed.
 
+(** a name some fragment definition has is in the map *)
+Lemma get_frag_acc_some defs n : forall acc,
+  acc <> None ->
+  fold_left (fun acc d => match d with
+                          | DFrag f => if str_eqb (iname (fr_name f)) n then Some f else acc
+                          | _ => acc
+                          end) defs acc <> None.
+Proof.
+  induction defs as [|d r IH]; intros acc Ha; [exact Ha|]. cbn [fold_left]. apply IH.
+  destruct d as [o|f|i]; try exact Ha. destruct (str_eqb _ _); [discriminate|exact Ha].
+Qed.
+
+Lemma get_frag_defined_acc defs f : forall acc,
+  In (DFrag f) defs ->
+  fold_left (fun acc d => match d with
+                          | DFrag g => if str_eqb (iname (fr_name g)) (iname (fr_name f)) then Some g else acc
+                          | _ => acc
+                          end) defs acc <> None.
+Proof.
+  induction defs as [|d r IH]; intros acc Hin; [contradiction|]. cbn [fold_left].
+  destruct Hin as [->|Hin]; [|apply IH, Hin].
+  rewrite str_eqb_refl. apply get_frag_acc_some. discriminate.
+Qed.
+
+Lemma get_frag_defined defs f : In (DFrag f) defs -> get_frag defs (iname (fr_name f)) <> None.
+Proof. intros H. unfold get_frag. now apply get_frag_defined_acc. Qed.
+
 Definition undone (U names : list str) : nat := length (filter (fun k => negb (mem k names)) U).
 
 Lemma undone_mono U names names' : incl names names' -> undone U names' <= undone U names.
